@@ -211,13 +211,13 @@ func (wpi *wpIterator) Get(ctx context.Context) (model.LogEvent, tag.Line, error
 		return wpi.lge, tag.EmptyLine, io.EOF
 	}
 
-	wpi.cur++
-
 	var le api.LogEvent
 	n, err := unmarshalLogEvent(wpi.buf[wpi.pos:], &le, false)
 	if err != nil {
-		return wpi.lge, tag.EmptyLine, io.EOF
+		// the packet declares more events than it carries: report it (every time), so the write is not acknowledged
+		return wpi.lge, tag.EmptyLine, errors.Wrapf(err, "could not read event %d of %d", wpi.cur+1, wpi.recs)
 	}
+	wpi.cur++
 	wpi.pos += n
 	wpi.read = true
 
